@@ -14,6 +14,11 @@ CLAIMED = {
  "C25": ("exploration", "Histories of put/get/get_mut/remove over several coroutines and keys with drop-counting values, executed by the coroutine bodies themselves and through the handles, each coroutine dropped at a generated point (never started / suspended mid-body / finished): map model for return values, privacy across coroutines, every value still stored is dropped exactly once with its coroutine.", "6 C25"),
  "C26": ("exploration", "Fresh process per run; 2-4 threads race on their first get_or_default / init_bean+get_bean of the same names, and on Scheduler::new (global queue bean), under seeded schedules with a scheduling point before every atomic and map operation: all addresses for one name are equal and equal to later lookups; work submitted through one concurrently created scheduler is reachable from the other.", "6 C26"),
  "C10": ("exploration", "Fresh process per run; generated coroutine programs with priorities on one scheduler, generated scheduling passes (budgets, clock advances), cancels of ready/suspended/finished/unknown ids between passes and from a second thread inside a pass, stall faults: every finished coroutine reported exactly once with its own value or panic message; no step before its requested wake-up; a pass with budget to spare resumes everything due at its start; a coroutine cancelled while not running never advances again; everyone else finishes.", "6 C10"),
+ "C01": ("exploration", "Whole runtime per run (fresh process): 1-4 event-loop threads, 1-4 user threads submitting generated tasks with priorities under seeded schedules that interleave inside the queue operations, capacity/CPU knobs forcing overflow and stealing: per-task counter never exceeds 1 (online); two simulated seconds after the last submission every accepted, never cancelled task has run exactly once while the runtime keeps scheduling; every submit call returns; nothing is dropped when EventLoops::stop reports success.", "6 C01"),
+ "C02": ("exploration", "Pool level (owner thread + user threads on one CoroutinePool) and runtime level (EventLoops, JoinHandle::join/timeout_join): a join returns the task's own value or panic message; returns within 100 ms (simulated) of max(call, task end); reports a timeout only if the task had not finished 100 ms before the deadline; untimed joins return. Multi-loop cross-pool result storage is a recorded known finding (KNOWN-FINDING lines).", "6 C02, 8"),
+ "C11": ("exploration", "Pool and runtime level: running size never above max; with min 0 it returns to 0 within keep-alive + 1 s after all work is done or cancelled; stop(30 s) returns Ok within 1 s of simulated time and leaves 0 workers, for every min/max/keep-alive, task program and cancel timing. Worker migration between event loops (multi-loop) is a recorded known finding.", "6 C11, 8"),
+ "C12": ("exploration", "Interleavings of submit / schedule pass / wait / cancel / stop from 2-4 threads on one pool, and submit / join / EventLoops::stop at runtime level: observed states form a prefix of Running, Stopping, Stopped; submits that begin after stop was observed are refused; every accepted task ran or was cancelled when stop reports success; waiters return by their deadline, untimed waiters on tasks that never run are released with an error.", "6 C12"),
+ "C13": ("exploration", "Cancels before submission, while queued (only counted when certainly still queued), running or suspended, with late signal delivery: a task cancelled before it starts never runs and its untimed waiter returns; every other task runs exactly once to its own result; nothing runs twice; the process survives.", "6 C13"),
 }
 NOTE = "Trusted: the vsim engine and shims (sequentially consistent interleavings at shim operations only; no weak-memory effects, no data races inside one uninstrumented operation), crossbeam Injector/SkipMap treated as linearizable, the textual std->vstd rewrite of the generated copy. Sampling, not enumeration."
 props = [json.loads(l) for l in open(os.path.join(V, "properties.jsonl"))]
